@@ -31,6 +31,151 @@ DELEGATED = [
 ]
 
 
+def rule_generated(src, rep, counts):
+    """The quantifier's "generated pool": every text up to a length bound over a small alphabet, given as a two-run value cut at
+    every position, through split / splitlines / ljust / rjust / a few delegated methods, against str on the text."""
+    import itertools
+    import re as _re
+    from ..fold import new_interp
+    from ..models import cells
+    from ..par import pmap
+    it = new_interp(src)
+    f = src.func("formatstring", "FmtStr.split")
+    maxlen = 4 if rep.tier == "thorough" else 3
+    A1, A2 = {"fg": 31}, {"bg": 44, "bold": True}
+
+    def values(alphabet):
+        for n in range(0, maxlen + 1):
+            for tup in itertools.product(alphabet, repeat=n):
+                text = "".join(tup)
+                for cut in sorted({0, len(text) // 2, len(text)}):
+                    runs = [(text[:cut], A1), (text[cut:], A2)] if text else [("", {})]
+                    yield text, [r for r in runs if r[0] or not text][:2] or [("", {})]
+    jobs = []
+    for text, runs in values("a, "):
+        for sep, regex in ((",", False), (" ", False), ("a", False), (",,", False), (", ", False), (",+", True), ("a|,", True), (r"\s*,\s*", True)):
+            jobs.append(("split", text, runs, (sep, regex)))
+        for w in range(0, len(text) + 3):
+            for fill in (None, "*"):
+                jobs.append(("ljust", text, runs, (w, fill)))
+                jobs.append(("rjust", text, runs, (w, fill)))
+        for meth, args in (("strip", ()), ("strip", ("a",)), ("replace", (",", ";")), ("find", (",",)), ("count", ("a",)), ("upper", ()),
+                           ("title", ()), ("center", (len(text) + 3,)), ("startswith", ("a",))):
+            jobs.append(("deleg", text, runs, (meth, args)))
+    for text, runs in values("a\n\r"):
+        for keep in (False, True):
+            jobs.append(("splitlines", text, runs, (keep,)))
+
+    def shared_of(runs):
+        live = [a for t, a in runs if t] or [a for t, a in runs]
+        sh = dict(live[0])
+        for a in live[1:]:
+            sh = {k: v for k, v in sh.items() if a.get(k, object()) == v}
+        return sh
+
+    def one(job):
+        kind, text, runs, arg = job
+        obj = mk(it, *runs)
+        orig = cells([r for r in runs])
+        try:
+            if kind == "split":
+                sep, regex = arg
+                r = it.call1("formatstring", "FmtStr.split", obj, sep, regex=True) if regex else it.call1("formatstring", "FmtStr.split", obj, sep)
+                want = _re.split(sep, text) if regex else text.split(sep)
+                pieces = True
+            elif kind == "splitlines":
+                r = it.call1("formatstring", "FmtStr.splitlines", obj, arg[0])
+                want = text.splitlines(arg[0])
+                pieces = True
+            elif kind in ("ljust", "rjust"):
+                w, fill = arg
+                r = it.callm(obj, kind, w) if fill is None else it.callm(obj, kind, w, fill)
+                want = getattr(text, kind)(w) if fill is None else getattr(text, kind)(w, fill)
+                pieces = False
+            else:
+                meth, args = arg
+                try:
+                    m = it.folder.obj_attr(obj, meth)
+                    r = ("ok", it.folder.v_call(m, list(args), {}, None, {}))
+                except Exception as e:
+                    if getattr(e, "name", None) is None:
+                        return ("error", "delegation of .%s outside the evaluated subset: %s" % (meth, e))
+                    r = ("raise", e.name)
+                try:
+                    want = getattr(text, meth)(*args)
+                except Exception as e:
+                    want = ("raise", type(e).__name__)
+                pieces = False
+        except AnalysisError as e:
+            return ("error", str(e))
+        if r[0] == "opaque":
+            return ("error", "%s outside the evaluated subset: %s" % (kind, r[1]))
+        call = "%r (runs %s) .%s%r" % (text, [t for t, _ in runs], kind if kind != "deleg" else arg[0], arg if kind != "deleg" else arg[1])
+        rule = {"split": "G-split", "splitlines": "G-splitlines", "ljust": "G-just", "rjust": "G-just", "deleg": "G-delegated"}[kind]
+        if isinstance(want, tuple) and want and want[0] == "raise":
+            return None if r == want else (rule, call, "FmtStr gives %s, str raises %s" % (_show(r), want[1]))
+        if r[0] != "ok":
+            return (rule, call, "FmtStr raises %s, str gives %r" % (r[1], want))
+        if pieces:
+            got = r[1]
+            if not isinstance(got, list) or ["".join(t for t, _ in runs_of(x)) for x in got] != want:
+                return (rule, call, "FmtStr gives %s, str gives %r" % (_show(r), want))
+            # pieces keep each character's own formatting: they are, in order, slices of the original cells
+            if kind == "split":
+                spans, pos = [], 0
+                for m in _re.finditer(arg[0] if arg[1] else _re.escape(arg[0]), text):
+                    spans.append((pos, m.start()))
+                    pos = m.end()
+                spans.append((pos, len(text)))
+            else:
+                spans, pos = [], 0
+                for kept, line in zip(text.splitlines(True), text.splitlines()):
+                    spans.append((pos, pos + len(kept if arg[0] else line)))
+                    pos += len(kept)
+            if [text[a:b] for a, b in spans] != want:
+                return ("error", "reference spans disagree with str for %s" % call)
+            for (a, b), x in zip(spans, got):
+                if cells(runs_of(x)) != orig[a:b]:
+                    return (rule, call, "the pieces do not keep each character's own formatting: %s" % _show(r))
+            return None
+        if isinstance(want, str):
+            if not isinstance(r[1], Obj) or "".join(t for t, _ in runs_of(r[1])) != want:
+                return (rule, call, "FmtStr gives %s, str gives %r" % (_show(r), want))
+            sh = shared_of(runs)
+            keep_ok = all(a == sh for t, a in runs_of(r[1]) if t) if kind == "deleg" or arg[1] is not None else True
+            if kind in ("ljust", "rjust") and arg[1] is None:
+                # the letter of the statement: the result carries the formatting shared by all characters, and shows no
+                # formatting that no character of the original had (the padding may carry less than the text does)
+                got_cells = cells(runs_of(r[1]))
+                at = (len(want) - len(text)) if kind == "rjust" else 0
+                had = {kv for _, e in orig for kv in e}
+                body = got_cells[at:at + len(text)]
+                keep_ok = all(set(sh.items()) <= set(e) for _, e in body) and all(set(e) <= had for _, e in got_cells)
+            if not keep_ok:
+                return (rule, call, "text right, formatting wrong: %s (shared formatting %s)" % (_show(r), sh))
+            return None
+        return None if r[1] == want else (rule, call, "FmtStr gives %s, str gives %r" % (_show(r), want))
+    results = pmap(one, jobs, min_chunk=32)
+    bad = {}
+    for job, res in zip(jobs, results):
+        rep.case(True)
+        if res is None:
+            continue
+        if res[0] == "error":
+            raise AnalysisError(res[1])
+        bad.setdefault(res[0], []).append(res[1:])
+    for rule, group in (("G-split", "split on the generated pool"), ("G-splitlines", "splitlines on the generated pool"),
+                        ("G-just", "ljust / rjust on the generated pool"), ("G-delegated", "delegated methods on the generated pool")):
+        items = bad.get(rule, [])
+        if items:
+            items.sort(key=lambda y: len(y[0]))
+            rep.ob(rule + "-agrees-with-str", f.where(), "formatstring:FmtStr", group, False, "%s: %s (%d cases fail)" % (items[0][0], items[0][1], len(items)),
+                   witness={"call": items[0][0]})
+        else:
+            rep.ob(rule + "-agrees-with-str", f.where(), "formatstring:FmtStr", group, True)
+    counts["generated_cases"] = len(jobs)
+
+
 def check(src, rep):
     rep.explanation = EXPLANATION
     rep.not_decided = NOT_DECIDED
@@ -42,7 +187,9 @@ def check(src, rep):
     rep.guard(rule_just, src, rep, counts)
     rep.guard(rule_split, src, rep, counts)
     rep.guard(rule_shared_complete, src, rep, counts)
+    rep.guard(rule_generated, src, rep, counts)
     rep.extracted["counts"] = counts
+    rep.floor("generated pool cases", counts.get("generated_cases", 0), 1500)
     rep.floor("delegated method samples", counts.get("delegated", 0), 30)
 
 
